@@ -1,5 +1,5 @@
 """C12 - a signal reaches exactly the callbacks whose match rule it satisfies."""
-from ..engine import Spec, assume, check, reached, HarnessError, notrace
+from ..engine import Spec, assume, check, reached, HarnessError, notrace, decode_choice, encode_choice
 from ..runner import Ob
 from .. import ref_match
 
@@ -17,8 +17,8 @@ EXPLANATION = (
     'sets: up to 3 rules with a raising callback and add/remove histories. text: the rule text sent by '
     'DBusClientConnection.addMatch and parsed back by Bus.dbus_AddMatch expresses the same constraints. proxy: '
     'notifyOnSignal passes the arguments only for the declared signature.')
-BOUNDS = {'quick': 'ns: namespace len <= 3, path len <= 4; arg: len <= 2; argpath: len <= 3 both sides; sets: 3 rules, 4 operations',
-          'thorough': 'ns: len <= 4 / 5; argpath: len <= 4'}
+BOUNDS = {'quick': 'ns: namespace len <= 3, path len <= 4; arg: len <= 2; argpath: len <= 3 both sides; sets: 3 rules, 4 operations (every history)',
+          'thorough': 'ns: len <= 4 / 4; argpath: total length <= 6; sets: 5 operations'}
 ASSUMPTIONS = ['strings range over the alphabet {"/", "a", "b"} (one separator, two letters): enough to express equal / prefix / sibling-prefix / trailing-slash relations',
                'the router is driven with attribute-carrying message objects (it only reads attributes); real messages are used in text and proxy',
                'the sender key is not in the statement and is not checked']
@@ -51,10 +51,10 @@ def obligations(tier):
     for key in ('interface', 'member', 'path', 'destination', 'mtype'):
         obs.append(Ob('keys:' + key, 'keys', {'key': key}, timeout=120, twin=True, functions=FUNCS[:5],
                       bounds='rule value and message value: symbolic selectors over a pool with near-misses; other keys present or not'))
-    nsl, pl = (3, 4) if tier == 'quick' else (4, 5)
+    nsl, pl = (3, 4) if tier == 'quick' else (4, 4)
     for a in range(1, nsl + 1):
         for b in range(1, pl + 1):
-            obs.append(Ob('ns:%d:%d' % (a, b), 'ns', {'nl': a, 'pl': b}, timeout=300, path_timeout=30, twin=(a + b) % 2 == 0,
+            obs.append(Ob('ns:%d:%d' % (a, b), 'ns', {'nl': a, 'pl': b}, timeout=300 if a + b <= 7 else 2400, path_timeout=30, twin=(a + b) % 2 == 0,
                           functions=FUNCS[:2], bounds='namespace: symbolic string len %d; path: symbolic string len %d' % (a, b)))
     for a in range(0, 3):
         for b in range(0, 3):
@@ -63,12 +63,14 @@ def obligations(tier):
     apl = 3 if tier == 'quick' else 4
     for a in range(1, apl + 1):
         for b in range(0, apl + 1):
+            if a + b > 6:
+                continue
             obs.append(Ob('argpath:%d:%d' % (a, b), 'argpath', {'rl': a, 'al': b}, timeout=600, path_timeout=30,
                           twin=(a + b) % 2 == 0, functions=FUNCS[:2],
                           bounds='rule value len %d, argument len %d, symbolic' % (a, b)))
-    nops = 3 if tier == 'quick' else 4
+    nops = 4 if tier == 'quick' else 5
     for raiser in range(3):
-        for first in ([None] if nops == 3 else list(range(9))):
+        for first in ([None] if nops == 4 else list(range(9))):
             obs.append(Ob('sets:raiser%d:n%d:first%s' % (raiser, nops, first), 'sets',
                           {'raiser': raiser, 'nops': nops, 'first': first}, timeout=900, path_timeout=30,
                           twin=(first in (None, 0)), functions=FUNCS[:5],
@@ -198,9 +200,17 @@ def build(family, p):
 
         raiser, nops, first = p['raiser'], p['nops'], p.get('first')
 
-        def h(*ops):
+        nfree = nops if first is None else nops - 1
+
+        def h(code):
+            ops = decode_choice(code, [9] * nfree)
             if first is not None:
-                assume(ops[0] == first)
+                ops = [first] + ops
+            with notrace():
+                run(ops)
+            reached()
+
+        def run(ops):
             r = router.MessageRouter()
             ids = {}
             counts = [0, 0, 0]
@@ -214,7 +224,6 @@ def build(family, p):
                 return cb
             removed = set()
             for op in ops:
-                assume(0 <= op < 9)
                 if op < 3:                       # add rule op
                     if op not in live and op not in removed:
                         ids[op] = r.addMatch(mk(op), **RULES[op])
@@ -233,12 +242,10 @@ def build(family, p):
                         want = 1 if (i in live and ref_match.match(RULES[i], m)) else 0
                         check(counts[i] - before[i] == want,
                               'each live matching rule fires exactly once, removed or non-matching rules never')
-            reached()
         h.__name__ = 'sets'
-        wit = [w[:nops] for w in [(0, 1, 6, 7), (0, 6, 3, 6), (1, 2, 8, 7), (2, 7, 5, 7)]]
-        if first is not None:
-            wit = [(first,) + w[1:] for w in wit]
-        return Spec(h, [('o%d' % i, int) for i in range(nops)], witnesses=wit)
+        wit = [list(w[:nops]) for w in [(0, 1, 6, 7, 8), (0, 6, 3, 6, 0), (1, 2, 8, 7, 6), (2, 7, 5, 7, 1)]]
+        wit = [(encode_choice((w[1:] if first is not None else w)[:nfree], [9] * nfree),) for w in wit]
+        return Spec(h, [('code', int)], witnesses=wit)
 
     if family in ('text', 'proxy'):
         return _build_client(family, p)
